@@ -264,6 +264,19 @@ func (c *SeqCheck) Run(e *Env) (*Outcome, *Evidence, error) {
 	}
 	out := classify(c.Prop, fails, findings)
 
+	hist := map[string]map[string]int{}
+	for _, o := range obs {
+		n := o.Cmd.name()
+		if hist[n] == nil {
+			hist[n] = map[string]int{}
+		}
+		if o.Exit == 0 {
+			hist[n]["accepted"]++
+		} else {
+			hist[n]["rejected"]++
+		}
+	}
+	cov["command_histogram"] = hist // vacuity guard: which commands the judged steps exercised, accepted / rejected
 	nt, samples := nontrivial(obs)
 	cov["traces_validated_against_impl"] = histories
 	cov["evaluations"] = len(obs)
